@@ -136,13 +136,18 @@ def ids_for(rng, feats, shaped=False):
     return ["f%d" % i for i in range(len(feats))]
 
 
-def gff3(feats, ids, parents=None):
+def gff3(feats, ids, parents=None, same_source=False):
+    """One line per row.  ids[i] None = a line without ID attribute (gffutils generates the id); same_source = every line
+    carries the same source column (so that rows equal in the five model columns are equal in all nine columns)."""
     lines = []
     for i, (r, fid) in enumerate(zip(feats, ids)):
-        attrs = "ID=%s" % fid
+        attrs = [] if fid is None else ["ID=%s" % fid]
         if parents and parents[i]:
-            attrs += ";Parent=" + ",".join(parents[i])
-        lines.append("\t".join([r[0], "src%d" % (i % 2), r[2], str(r[3]), str(r[4]), ".", r[1], ".", attrs]))
+            attrs.append("Parent=" + ",".join(parents[i]))
+        if not attrs:
+            attrs.append("note=dup")
+        lines.append("\t".join([r[0], "src" if same_source else "src%d" % (i % 2), r[2], str(r[3]), str(r[4]), ".", r[1], ".",
+                                ";".join(attrs)]))
     return "\n".join(lines) + "\n"
 
 
@@ -249,3 +254,85 @@ def single_tie_insensitive(rng):
     """A one-element criteria list whose partition cannot depend on the order of features that tie on the merge order."""
     return [rng.choice(["seqid", "strand", "feature_type", "overlap_end_inclusive", "overlap_end_inclusive",
                         ["overlap_end_threshold", rng.randrange(0, 6)], ["overlap_end_threshold", rng.randrange(0, 6)]])]
+
+
+# -- features identical in all nine columns and attributes -------------------------------------------------------------
+def with_twins(rng, feats):
+    """The rows with 1..3 of them repeated (twice, sometimes three times) right behind the original: start order is kept.
+    Returns (rows, index of the row each row is a copy of or None)."""
+    k = min(len(feats), rng.choice([1, 1, 2, 3]))
+    chosen = set(rng.sample(range(len(feats)), k))
+    out, copy_of = [], []
+    for i, r in enumerate(feats):
+        out.append(list(r))
+        copy_of.append(None)
+        if i in chosen:
+            first = len(out) - 1
+            for _ in range(rng.choice([1, 1, 1, 2])):
+                out.append(list(r))
+                copy_of.append(first)
+    return out, copy_of
+
+
+def twin_ids(rng, copy_of, mode):
+    """mode 'idless': no line carries an ID (generated ids); 'idless twins': only the repeated lines lack an ID;
+    'same id': a repeated line carries the ID of its original (to be loaded with merge_strategy='create_unique')."""
+    ids = []
+    for i, c in enumerate(copy_of):
+        twin = c is not None or (i + 1 < len(copy_of) and copy_of[i + 1] == i)
+        if mode == "idless" or (mode == "idless twins" and twin):
+            ids.append(None)
+        elif mode == "same id" and c is not None:
+            ids.append(ids[c])
+        else:
+            ids.append("f%d" % i)
+    return ids
+
+
+TWIN_MODES = ["idless", "idless twins", "same id", "same id"]
+
+
+def gapped_feats(rng, nmax=7):
+    """Start-ordered rows of one seqid / type whose intervals leave gaps (and overlap / touch here and there), strands
+    uniform or mixed: under the default criteria they fall into several runs, with no criterion at all into one."""
+    n = rng.randrange(2, nmax + 1)
+    seqid, strand, ftype = rng.choice(SEQIDS), rng.choice(STRANDS), "exon"
+    mixed = rng.random() < 0.3
+    s = rng.randrange(1, 10)
+    out = []
+    for k in range(n):
+        e = s + rng.choice([0, 1, 3, 6, 10])
+        out.append([seqid, rng.choice(STRANDS) if mixed else strand, ftype, s, e])
+        r = rng.random()
+        s = e + rng.randrange(2, 12) if r < 0.6 or k == 0 else e + 1 if r < 0.7 else rng.randrange(s + 1, e + 2)
+    return out
+
+
+def non_default_criteria(rng):
+    """Tie-insensitive criteria lists that differ from the default ones in effect: no strand, a wider reach, labels only."""
+    return rng.choice([["seqid", ["overlap_end_threshold", rng.randrange(2, 6)], "feature_type"],
+                       ["seqid", "overlap_end_inclusive", "feature_type"],
+                       ["seqid", ["overlap_end_threshold", 0], "strand", "feature_type"],
+                       ["seqid", "strand", "feature_type"], ["seqid"], ["strand"], ["feature_type"],
+                       [["overlap_end_threshold", rng.randrange(2, 6)]], ["overlap_end_inclusive"], []])
+
+
+GROUP_SETS = [[["exon"], ["CDS"]], [["CDS"], ["exon"]], [["exon"], ["CDS"], ["gene"]], [["gene"], ["exon", "CDS"]],
+              [["exon"], ["CDS", "gene"]]]
+
+
+def grouped_db_feats(rng):
+    """Rows for merge_all with several featuretype groups: every featuretype in {exon, CDS, gene} gets a gapped, overlapping
+    series of its own (distinct starts per (seqid, type, strand): no ties on the merge order), file order shuffled."""
+    out = []
+    seqid = rng.choice(SEQIDS)
+    for ftype in ("exon", "CDS", "gene"):
+        for strand in rng.sample(STRANDS, rng.choice([1, 1, 2])):
+            s = rng.randrange(1, 8)
+            for _ in range(rng.randrange(2, 6)):
+                e = s + rng.choice([0, 2, 4, 9])
+                out.append([seqid, strand, ftype, s, e])
+                r = rng.random()
+                s = e + rng.randrange(2, 8) if r < 0.45 else e + 1 if r < 0.6 else rng.randrange(s + 1, e + 2)
+    rng.shuffle(out)
+    return out
